@@ -184,8 +184,10 @@ theorem gen_HomogFamilyAlignment_pseudoinverse_eq (s : HT d α) (h : s.cls.isAli
   cases inv M with
   | none => simp
   | some B =>
-    simp only [Option.bind_some, Option.map_some, HT.setH]
-    rw [ends_swap]
+    first
+    | (simp only [Option.bind_some, Option.map_some, HT.setH]; rw [ends_swap])
+    | (rcases e with _ | ⟨a, b⟩ <;>
+        simp [HT.setH, HT.setSource, HT.setTarget, HT.source, HT.target])
 
 /-- THE TIE: `pseudoinverse()` as the source says it now — the translated body of the class the live MRO names, with the
 translated constructors, properties and `_h_matrix_pseudoinverse` it calls — is the `pinv` of the model, on every
@@ -315,7 +317,7 @@ theorem ctor_Homogeneous_default_eq (M : Mat (d + 1)) :
 
 theorem gen_tcoords_to_image_coords_eq (h w : ℚ) :
     gen_tcoords_to_image_coords (h, w) = some ⟨.homogeneous, tcoordsToImage h w, none⟩ := by
-  simp only [gen_tcoords_to_image_coords, ctor_Homogeneous_default_eq, Option.bind_some]
+  simp only [gen_tcoords_to_image_coords, ctor_Homogeneous_default_eq, Option.bind_some, vsubOne_shapeVec]
   rfl
 
 theorem gen_image_coords_to_tcoords_eq (h w : ℚ) :
